@@ -275,6 +275,21 @@ void Ruleset__prerun(Ruleset *self, OomdContext context)
   __CPROVER_loop_invariant(__begin2.i <= __begin2.n && __begin2.n == self->action_group_.n && __end2.i == __begin2.n && g_prerun_act == __begin2.i) \
   __CPROVER_decreases(__begin2.n - __begin2.i)
 
+/* ---- C13: drop-in targeting count and enablement ----
+ * Inv13: numTargeted_ == number of drop-ins currently targeting this ruleset (>= 0), and
+ *        enabled_ == !(disable_on_drop_in_ && numTargeted_ > 0)                                  */
+#define INV13(s) ((s)->numTargeted_ >= 0 && ((s)->enabled_ != 0) == !((s)->disable_on_drop_in_ && (s)->numTargeted_ > 0))
+void Ruleset__markDropInTargeted(Ruleset *self)
+  __CPROVER_requires(__CPROVER_is_fresh(self, sizeof(*self)) && INV13(self) && self->numTargeted_ < 2147483647)
+  __CPROVER_assigns(self->numTargeted_, self->enabled_)
+  __CPROVER_ensures(self->numTargeted_ == __CPROVER_old(self->numTargeted_) + 1 && INV13(self)); /*@C13*/
+void Ruleset__markDropInUntargeted(Ruleset *self)
+  __CPROVER_requires(__CPROVER_is_fresh(self, sizeof(*self)) && INV13(self) && self->numTargeted_ >= 1)
+  __CPROVER_assigns(self->numTargeted_, self->enabled_)
+  __CPROVER_ensures(self->numTargeted_ == __CPROVER_old(self->numTargeted_) - 1 && INV13(self)); /*@C13*/
+void h_Ruleset__markDropInTargeted(void) { Ruleset *self; Ruleset__markDropInTargeted(self); __CPROVER_assert(0, "canary: contract precondition satisfiable and function exit reachable"); }
+void h_Ruleset__markDropInUntargeted(void) { Ruleset *self; Ruleset__markDropInUntargeted(self); __CPROVER_assert(0, "canary: contract precondition satisfiable and function exit reachable"); }
+
 #define HAVOC_GHOST() do { HAVOC(g_ctx_action); HAVOC(g_ctx_invoking); HAVOC(g_ctx_rscg); HAVOC(g_dg_next); HAVOC(g_first_fired); \
   HAVOC(g_first_action); HAVOC(g_chain_first); HAVOC(g_action_runs); HAVOC(g_last_ret); HAVOC(g_plugin_paused); HAVOC(g_plugin_until); HAVOC(g_now_calls); \
   HAVOC(g_now_hist0); HAVOC(g_now_hist1); HAVOC(g_uuid_calls); HAVOC(g_last_uuid); \
